@@ -1,7 +1,7 @@
 //! C10 - process answers before it reads on, and ends only on a transport error.
 use simcore::exec::{Out, Sink, Tok};
 use simcore::rng::Rng;
-use simcore::spec::{Family, Model, IFACES};
+use simcore::spec::{Family, IFACES};
 use simcore::world::Ev;
 
 use super::common::{pick_iface, valid_history};
@@ -35,7 +35,7 @@ impl Prop for C10T {
     fn generate(&self, seed: u64, thorough: bool) -> Scenario {
         let mut rng = Rng::new(seed);
         let (iface, cap) = pick_iface(&mut rng, &[Family::Tree, Family::Tree, Family::Queue]);
-        let m = Model::of(iface);
+        let m = simcore::spec::model(iface);
         let k = rng.range(1, 8);
         let max_units = rng.range(1, 3);
         let pay = if rng.chance(1, 4) { Payloads::Special } else { Payloads::Plain };
